@@ -75,7 +75,18 @@ def driver_eliminates(ctx):
         same = [eb for eb, _ in elims if s(R.call_args(eb)[0]) == recv]
         if t.get('target') is None:
             continue
-        escapes = [e for e in ends if cfg.reaches(t['target'], e, avoid=same)]
+        # later tests of the same layer value (an elimination hoisted behind `if !matches!(layer, ..)`) are followed only along the
+        # outcomes this arm's variant can take
+        dead = []
+        if arm:
+            for sb, bl in b.live_blocks():
+                if bl['term']['k'] != 'switch':
+                    continue
+                for e in cfg.edge_nodes(sb):
+                    lit = edge_literal(b, R, sb, cfg.edge_label[e])
+                    if lit and lit[0] == 'is' and s(lit[1]) == s(arm[0][1]) and not (set(arm[0][2]) & set(lit[2])):
+                        dead.append(e)
+        escapes = [e for e in ends if cfg.reaches(t['target'], e, avoid=same + dead)]
         if escapes:
             ctx.bad('C06.R10', site, 'after this composition without pruning the iteration can end (or the next composition start) without infeasible_elimination on the '
                     'tree being built: the nodes it added are never checked', t['span'])
